@@ -462,6 +462,17 @@ def t_every_protocol(ctx, lo, hi):
         scenario_case(ctx, {'allowed': [(p, 'num')], 'default': None,
                             'reply': reply, 'entry': 'connect',
                             'username': 'u', 'token': True})
+        # one allowed VERSION spelled more than once (two of its names, a
+        # name and its number, the number twice; list or set): still a
+        # single allowed version, so no status query
+        spell2 = [[(p, 'num'), (p, 'num')], [(p, 'num'), (p, 0)]]
+        if len(names.get(p, ())) >= 2:
+            spell2.append([(p, 0), (p, 1)])
+        for k, al in enumerate(spell2):
+            scenario_case(ctx, {'allowed': al, 'default': None,
+                                'reply': reply, 'entry': 'connect',
+                                'username': 'u', 'as_set': bool(k % 2)
+                                if al[0] != al[1] else False})
     ctx.sample({'allowed': [(sup[0], 'num'), (sup[lo], 0)],
                 'reply_protocol': sup[lo]}, 'every_protocol')
     ctx.exhaustive_done('every supported protocol as the server answer: '
